@@ -65,6 +65,34 @@ print(json.dumps({"violates": (got != "reject") != ok or k0 != want0, "observed"
 '''
 
 
+REPLAY_TUPLE_LEN = r'''
+import tempfile, importlib.util, os, sys, shutil
+from guppylang_internals.error import GuppyError
+src = """from guppylang import guppy
+from guppylang.std.builtins import comptime
+@guppy
+def longer() -> tuple[int, int]:
+    return comptime((1, 2, 3))
+@guppy
+def shorter() -> tuple[int, int, int]:
+    return comptime((1, 2))
+"""
+d = tempfile.mkdtemp(dir=os.environ.get("TMPDIR", "/var/tmp")); fn = os.path.join(d, "replay_c17t.py"); open(fn, "w").write(src)
+spec = importlib.util.spec_from_file_location("replay_c17t", fn); m = importlib.util.module_from_spec(spec); sys.modules["replay_c17t"] = m
+spec.loader.exec_module(m)
+res = {}
+for name in ("longer", "shorter"):
+    try:
+        getattr(m, name).compile_function(); res[name] = "accepted"
+    except GuppyError as ex:
+        res[name] = "rejected:" + type(ex.error).__name__
+    except Exception as ex:
+        res[name] = "crash:" + type(ex).__name__ + ": " + str(ex)[:80]
+shutil.rmtree(d, ignore_errors=True)
+print(json.dumps({"violates": any(not v.startswith("rejected") for v in res.values()), "observed": res, "required": "a comptime tuple of another length than the annotated type is a type error"}))
+'''
+
+
 def node_stub(it):
     return ast_from_source(it, "x", "eval").fields["body"]
 
@@ -222,6 +250,20 @@ def run(chk):
     chk.prove_paths("python_value_to_guppy_type((x0,x1),hint=tuple[nat,?T]):x0-typed-nat<=>0<=x0<2^64;x1-int", paths, post_partial,
                     func=EC + ":python_value_to_guppy_type",
                     replay=lambda m: {"script": REPLAY_PARTIAL, "input": {"value": [model_val(m, xs[0]), model_val(m, xs[1])]}})
+
+    # ---- a tuple hint of another LENGTH is an invalid hint and is ignored: the constant keeps every component
+    # (its type then simply does not match; dropping a component would hand a shorter type to python_value_to_hugr)
+    for n_val, n_hint in ((3, 2), (2, 3), (1, 2), (2, 0)):
+        def t_len(it, n_val=n_val, n_hint=n_hint):
+            m = e.module(EC)
+            tm = e.module("guppylang_internals.tys.ty")
+            hint = it.call(it.lookup_global(tm, "TupleType"), [[it.call(it.lookup_global(m, "nat_type"), [], {}) for _ in range(n_hint)]], {})
+            it.ctx.assume(z3.And(*[z3.And(x >= 0, x <= IMAX) for x in xs[:n_val]]))
+            return it.call(it.lookup_global(m, "python_value_to_guppy_type"), [tuple(SInt(x) for x in xs[:n_val]), node_stub(it), None, hint], {})
+        chk.prove_paths(f"python_value_to_guppy_type({n_val}-tuple,hint={n_hint}-tuple):every-component-typed(hint-of-another-length-ignored)", e.explore(t_len),
+                        lambda p, n_val=n_val: z3.BoolVal(p.kind == "return" and isinstance(p.value, SObj) and p.value.cls.name == "TupleType" and len(p.value.fields["element_types"]) == n_val
+                                                          and all(kind_of(t_) == "Int" for t_ in p.value.fields["element_types"])),
+                        func=EC + ":python_value_to_guppy_type", replay=lambda m_: {"script": REPLAY_TUPLE_LEN, "input": {}})
 
     # ---- negative literal folding: USub(Constant(v)) -> Constant(-v), nothing else folded
     def t_fold(it):
